@@ -12,6 +12,7 @@
     * `c = Wᵀ(x_cp − x)` is what the Cauchy step returns (C08 `gcp_first_local_min`).
 -/
 import LbfgsbVerif.Props.C10Kernel
+import LbfgsbVerif.Props.C18
 import Mathlib.LinearAlgebra.Matrix.NonsingularInverse
 
 set_option linter.unusedSectionVars false
@@ -198,4 +199,133 @@ theorem complete_iteration_descent_curv (lb ub : Vec K) (e : K) (x g : Vec K) (X
   rw [hi] at this
   exact this
 
+/-- what the curvature invariant of the memory (C18 `pairs_curvature`, C13 `redefinition_pairs_curvature`: every
+consecutive pair of the stored history passes the test `eps·yᵀy < sᵀy`, `eps ≥ 0`) gives for the stored differences -/
+theorem curv_hyps_of_chain (n : Nat) (eps : K) (he : 0 ≤ eps) :
+    ∀ (X G : List (Vec K)), X.length = G.length → AllLen n X → AllLen n G → CurvChain eps X G →
+      ∀ j, j < (diffs X).length →
+        ((diffs X).getD j []).length = n ∧ ((diffs G).getD j []).length = n ∧
+        vec n ((diffs X).getD j []) ≠ 0 ∧
+        0 < vec n ((diffs X).getD j []) ⬝ᵥ vec n ((diffs G).getD j []) ∧
+        0 < vec n ((diffs G).getD j []) ⬝ᵥ vec n ((diffs G).getD j []) := by
+  intro X
+  induction X with
+  | nil => intro G _ _ _ _ j hj; simp [diffs] at hj
+  | cons x1 t ih =>
+    intro G hl hX hG hc j hj
+    cases t with
+    | nil => simp [diffs] at hj
+    | cons x2 xs =>
+      cases G with
+      | nil => simp at hl
+      | cons g1 G' =>
+        cases G' with
+        | nil => simp at hl
+        | cons g2 gs =>
+          simp only [CurvChain] at hc
+          obtain ⟨hk, hrest⟩ := hc
+          have hx1 : x1.length = n := hX x1 (by simp)
+          have hx2 : x2.length = n := hX x2 (by simp)
+          have hg1 : g1.length = n := hG g1 (by simp)
+          have hg2 : g2.length = n := hG g2 (by simp)
+          cases j with
+          | zero =>
+            simp only [diffs, List.getD_cons_zero]
+            have hsl : (vsub x2 x1).length = n := by simp [vsub, vzip_length', hx1, hx2]
+            have hyl : (vsub g2 g1).length = n := by simp [vsub, vzip_length', hg1, hg2]
+            unfold curvOk at hk
+            simp only [decide_eq_true_eq] at hk
+            rw [dot_vec n _ _ hyl hyl, dot_vec n _ _ hsl hyl] at hk
+            have hpos := C18.curv_pos eps he _ _ hk
+            have hyy : 0 ≤ vec n (vsub g2 g1) ⬝ᵥ vec n (vsub g2 g1) := by
+              simp only [dotProduct]; exact Finset.sum_nonneg (fun i _ => mul_self_nonneg _)
+            refine ⟨hsl, hyl, ?_, hpos, ?_⟩
+            · intro h0; rw [h0] at hpos; simp at hpos
+            · rcases lt_or_eq_of_le hyy with h1 | h1
+              · exact h1
+              · exfalso
+                have hy0 : vec n (vsub g2 g1) = 0 := by
+                  funext r
+                  have := (Finset.sum_eq_zero_iff_of_nonneg (fun i _ => mul_self_nonneg (vec n (vsub g2 g1) i))).mp h1.symm r
+                    (Finset.mem_univ r)
+                  exact mul_self_eq_zero.mp this
+                rw [hy0] at hpos; simp at hpos
+          | succ j' =>
+            simp only [diffs, List.getD_cons_succ]
+            have hj' : j' < (diffs (x2 :: xs)).length := by simp [diffs] at hj; exact hj
+            exact ih (g2 :: gs) (by simpa using hl) (fun v hv => hX v (List.mem_cons_of_mem _ hv))
+              (fun v hv => hG v (List.mem_cons_of_mem _ hv)) hrest j' hj'
+
+theorem getLast?_getD (l : List (Vec K)) (h : 0 < l.length) : l.getLast? = some (l.getD (l.length - 1) []) := by
+  rw [List.getLast?_eq_getElem?, List.getD_eq_getElem?_getD, List.getElem?_eq_getElem (by omega)]
+  rfl
+
+/-- **C01 (descent from the invariants of the memory)** the same with the hypotheses on the stored pairs replaced by the
+invariants the driver maintains: the history `(X, G)` (at least one pair) consists of vectors of the length of `x` and every
+consecutive pair passed the curvature test with `eps ≥ 0` (`CurvChain`: C18 `pairs_curvature`). -/
+theorem descent_from_memory_invariant (lb ub : Vec K) (e eps : K) (he : 0 ≤ eps) (x g : Vec K) (X G : List (Vec K))
+    (hX : X.length > 1) (hXG : X.length = G.length) (hn : 0 < x.length)
+    (hlX : AllLen x.length X) (hlG : AllLen x.length G) (hchain : CurvChain eps X G)
+    (box : InBoxF lb ub x)
+    (floor : ∀ dd : Fin x.length → K, dd ≠ 0 →
+      (∀ r, dd r = 0 ∨ dd r = vec x.length (cauchyD0 (breakpoints x (fitTo x g) lb ub) (fitTo x g)) r) →
+      e * f2orgOf (kernelInput x g lb ub (some (X, G)) e) ≤
+        dd ⬝ᵥ (C10.bfgsChain ((thetaOf X G) • (1 : Matrix (Fin x.length) (Fin x.length) K))
+          (pairsOf x.length (diffs X) (diffs G)) *ᵥ dd))
+    (hns : projgr x (fitTo x g) lb ub ≠ 0) :
+    vec x.length (fitTo x g) ⬝ᵥ (vec x.length (xbarModel lb ub e x g (some (X, G))) - vec x.length x) < 0 := by
+  have hall := curv_hyps_of_chain x.length eps he X G hXG hlX hlG hchain
+  have hdl : (diffs X).length = X.length - 1 := diffs_length X
+  have hdg : (diffs G).length = X.length - 1 := by rw [diffs_length G, hXG]
+  have hpos : 0 < (diffs X).length := by omega
+  have hθ : 0 < thetaOf X G := by
+    unfold thetaOf
+    rw [getLast?_getD (diffs X) hpos, getLast?_getD (diffs G) (by omega)]
+    simp only
+    obtain ⟨hs, hy, -, h1, h2⟩ := hall ((diffs X).length - 1) (by omega)
+    rw [hdg, ← hdl]
+    rw [dot_vec x.length _ _ hy hy, dot_vec x.length _ _ hs hy]
+    exact div_pos h2 h1
+  exact complete_iteration_descent_curv lb ub e x g X G hX hXG hn (fun j hj => (hall j hj).1) (fun j hj => (hall j hj).2.1)
+    (fun j hj => ⟨(hall j hj).2.2.1, (hall j hj).2.2.2.1⟩) hθ box floor hns
+
+end Lbfgsb.C01
+
+/-! ### Non-vacuity (ℚ): `f(x) = ½|x|²` on `[−2, 2]²`, history `(1,1) → (½,½)` (one pair, `s = y = (−½,−½)`, `θ = 1`), current
+point `(½,½)` with gradient `(½,½)`, `eps = 0`, no floor (`e = 0`): every hypothesis of `descent_from_memory_invariant` holds. -/
+namespace Lbfgsb.C01
+open Lbfgsb Matrix CompactKernel
+section nonvacuous
+
+def cvX : List (Vec ℚ) := [[1, 1], [1 / 2, 1 / 2]]
+
+theorem cv_diffs : diffs cvX = [[-1 / 2, -1 / 2]] := by decide +kernel
+theorem cv_theta : thetaOf cvX cvX = 1 := by decide +kernel
+
+example : vec 2 (fitTo ([1 / 2, 1 / 2] : Vec ℚ) [1 / 2, 1 / 2]) ⬝ᵥ
+    (vec 2 (xbarModel [-2, -2] [2, 2] 0 [1 / 2, 1 / 2] [1 / 2, 1 / 2] (some (cvX, cvX))) - vec 2 [1 / 2, 1 / 2]) < 0 := by
+  apply descent_from_memory_invariant [-2, -2] [2, 2] 0 0 (le_refl _) [1 / 2, 1 / 2] [1 / 2, 1 / 2] cvX cvX
+    (by decide) rfl (by decide)
+  · intro v hv; simp [cvX] at hv; rcases hv with rfl | rfl <;> rfl
+  · intro v hv; simp [cvX] at hv; rcases hv with rfl | rfl <;> rfl
+  · show curvOk _ _ _ _ _ = true ∧ True
+    exact ⟨by decide +kernel, trivial⟩
+  · simp [InBoxF]; norm_num
+  · intro dd hne _
+    rw [zero_mul]
+    have hp : ∀ p ∈ pairsOf 2 (diffs cvX) (diffs cvX), p.1 ≠ 0 ∧ 0 < p.1 ⬝ᵥ p.2 := by
+      intro p hp
+      rw [cv_diffs] at hp
+      simp only [pairsOf, List.zip_cons_cons, List.zip_nil_right, List.map_cons, List.map_nil, List.mem_singleton] at hp
+      subst hp
+      refine ⟨fun e => ?_, ?_⟩
+      · have := congrFun e 0
+        simp [vec] at this
+      · simp [vec, dotProduct, Fin.sum_univ_two]
+    have hspd := C10.bfgs_chain_posdef _ (C10.scaled_identity_spd (thetaOf cvX cvX) (by rw [cv_theta]; exact one_pos))
+      (pairsOf 2 (diffs cvX) (diffs cvX)) hp
+    exact le_of_lt (hspd.2 dd hne)
+  · decide +kernel
+
+end nonvacuous
 end Lbfgsb.C01
